@@ -41,6 +41,34 @@ pub struct Conf {
     /// MDB_SHARD_GLOBAL_DEDUP_CHUNK_MODULUS (a chunk is eligible for a global dedup query if hash % m == 0)
     #[serde(default = "default_modulus")]
     pub global_dedup_modulus: u16,
+    /// MINIMUM_CHUNK_DIVISOR / MAXIMUM_CHUNK_MULTIPLIER (shipped: 8 / 2)
+    #[serde(default = "default_divisor")]
+    pub min_divisor: u8,
+    #[serde(default = "default_multiplier")]
+    pub max_multiplier: u8,
+    /// MAX_CONCURRENT_UPLOADS (upload slots shared by the sessions of a process)
+    #[serde(default = "default_uploads")]
+    pub max_uploads: u8,
+    /// MIN_N_CHUNKS_PER_RANGE_HYSTERESIS_FACTOR x 10 and MIN_SPACING_BETWEEN_GLOBAL_DEDUP_QUERIES
+    #[serde(default = "default_hysteresis")]
+    pub hysteresis_x10: u8,
+    #[serde(default = "default_spacing")]
+    pub min_spacing: u16,
+}
+fn default_divisor() -> u8 {
+    8
+}
+fn default_multiplier() -> u8 {
+    2
+}
+fn default_uploads() -> u8 {
+    8
+}
+fn default_hysteresis() -> u8 {
+    5
+}
+fn default_spacing() -> u16 {
+    256
 }
 
 fn default_modulus() -> u16 {
@@ -52,13 +80,14 @@ impl Conf {
         1usize << self.target_log2
     }
     pub fn max_xorb_bytes(&self) -> usize {
-        self.target() * (self.max_xorb_bytes_mult.max(2) as usize)
+        // one maximum-size chunk must fit
+        self.target() * (self.max_xorb_bytes_mult.max(2).max(self.max_multiplier as u16) as usize)
     }
     pub fn max_xorb_chunks(&self) -> usize {
         self.max_xorb_chunks.max(1) as usize
     }
     pub fn params(&self) -> ChunkParams {
-        ChunkParams::default_for(self.target())
+        ChunkParams::new(self.target(), self.min_divisor.max(1) as usize, self.max_multiplier.max(2) as usize)
     }
     pub fn env(&self) -> BTreeMap<String, String> {
         let mut m = BTreeMap::new();
@@ -70,6 +99,11 @@ impl Conf {
         m.insert("HF_XET_NRANGES_IN_STREAMING_FRAGMENTATION_ESTIMATOR".into(), self.nranges.max(2).to_string());
         m.insert("HF_XET_MIN_N_CHUNKS_PER_RANGE".into(), format!("{:.1}", self.min_cpr_x10 as f32 / 10.0));
         m.insert("HF_XET_MDB_SHARD_GLOBAL_DEDUP_CHUNK_MODULUS".into(), self.global_dedup_modulus.max(1).to_string());
+        m.insert("HF_XET_MINIMUM_CHUNK_DIVISOR".into(), self.min_divisor.max(1).to_string());
+        m.insert("HF_XET_MAXIMUM_CHUNK_MULTIPLIER".into(), self.max_multiplier.max(2).to_string());
+        m.insert("HF_XET_MAX_CONCURRENT_UPLOADS".into(), self.max_uploads.max(1).to_string());
+        m.insert("HF_XET_MIN_N_CHUNKS_PER_RANGE_HYSTERESIS_FACTOR".into(), format!("{:.1}", self.hysteresis_x10 as f32 / 10.0));
+        m.insert("HF_XET_MIN_SPACING_BETWEEN_GLOBAL_DEDUP_QUERIES".into(), self.min_spacing.to_string());
         m
     }
     /// the configuration this process actually runs under (read back from the lazy statics)
@@ -84,6 +118,11 @@ impl Conf {
             nranges: std::env::var("HF_XET_NRANGES_IN_STREAMING_FRAGMENTATION_ESTIMATOR").ok().and_then(|s| s.parse().ok()).unwrap_or(128),
             min_cpr_x10: std::env::var("HF_XET_MIN_N_CHUNKS_PER_RANGE").ok().and_then(|s| s.parse::<f32>().ok()).map(|v| (v * 10.0) as u16).unwrap_or(80),
             global_dedup_modulus: std::env::var("HF_XET_MDB_SHARD_GLOBAL_DEDUP_CHUNK_MODULUS").ok().and_then(|s| s.parse().ok()).unwrap_or(1024),
+            min_divisor: (*deduplication::constants::MINIMUM_CHUNK_DIVISOR).min(255) as u8,
+            max_multiplier: (*deduplication::constants::MAXIMUM_CHUNK_MULTIPLIER).min(255) as u8,
+            max_uploads: std::env::var("HF_XET_MAX_CONCURRENT_UPLOADS").ok().and_then(|s| s.parse().ok()).unwrap_or(8),
+            hysteresis_x10: std::env::var("HF_XET_MIN_N_CHUNKS_PER_RANGE_HYSTERESIS_FACTOR").ok().and_then(|s| s.parse::<f32>().ok()).map(|v| (v * 10.0) as u8).unwrap_or(5),
+            min_spacing: std::env::var("HF_XET_MIN_SPACING_BETWEEN_GLOBAL_DEDUP_QUERIES").ok().and_then(|s| s.parse().ok()).unwrap_or(256),
         }
     }
 }
@@ -105,8 +144,16 @@ pub fn conf_strategy(frag_bias: bool) -> impl Strategy<Value = Conf> {
         nranges,
         prop_oneof![3 => Just(80u16), 2 => Just(20u16), 2 => Just(15u16), 1 => Just(1000u16)],
         prop_oneof![2 => Just(1u16), 2 => Just(4u16), 3 => Just(1024u16)],
+        // chunk divisor / multiplier, upload slots, hysteresis, global-dedup query spacing (shipped values most often)
+        (
+            prop_oneof![6 => Just(8u8), 1 => Just(4u8), 1 => Just(16u8), 1 => Just(2u8)],
+            prop_oneof![6 => Just(2u8), 1 => Just(3u8), 1 => Just(4u8)],
+            prop_oneof![4 => Just(8u8), 2 => Just(1u8), 2 => Just(2u8)],
+            prop_oneof![4 => Just(5u8), 1 => Just(0u8), 1 => Just(10u8)],
+            prop_oneof![4 => Just(256u16), 1 => Just(0u16), 1 => Just(1u16)],
+        ),
     )
-        .prop_map(|(target_log2, max_xorb_bytes_mult, max_xorb_chunks, shard_min_size, ingestion, nranges, min_cpr_x10, global_dedup_modulus)| Conf {
+        .prop_map(|(target_log2, max_xorb_bytes_mult, max_xorb_chunks, shard_min_size, ingestion, nranges, min_cpr_x10, global_dedup_modulus, (min_divisor, max_multiplier, max_uploads, hysteresis_x10, min_spacing))| Conf {
             target_log2,
             max_xorb_bytes_mult,
             max_xorb_chunks,
@@ -115,6 +162,11 @@ pub fn conf_strategy(frag_bias: bool) -> impl Strategy<Value = Conf> {
             nranges,
             min_cpr_x10,
             global_dedup_modulus,
+            min_divisor,
+            max_multiplier,
+            max_uploads,
+            hysteresis_x10,
+            min_spacing,
         })
 }
 
